@@ -64,6 +64,7 @@ TXT = {
     "denoms": r"\frac{{V^{ab}_{ij}} {V^{ij}_{ab}}}{\left({e_{a}} + {e_{b}} - {e_{i}} - {e_{j}}\right)^{2}} + \frac{{V^{ab}_{ij}} {f^{i}_{k}} {V^{kj}_{ab}}}{\left({e_{a}} + {e_{b}} - {e_{i}} - {e_{j}}\right) \left({e_{a}} + {e_{b}} - {e_{k}} - {e_{j}}\right)}",  # noqa: E501
     "spin2": r"{V^{ij}_{ab}} {t1^{ab}_{ij}} + {f^{i}_{a}} {t2^{a}_{i}} - \frac{{V^{ia}_{jb}} {t2^{b}_{i}} {t2cc^{a}_{j}}}{2}",  # noqa: E501
     "code3": r"{V^{kl}_{cd}} {t1^{ac}_{ik}} {t1^{bd}_{jl}} - \frac{{V^{kl}_{ij}} {t1^{ab}_{kl}}}{2} + {f^{a}_{c}} {t1^{bc}_{ij}}",  # noqa: E501
+    "pairs": r"{Y^{a}_{i}} {V^{ja}_{ce}} {X^{b}_{j}} {V^{ib}_{cd}} - \frac{{Y^{a}_{i}} {V^{ja}_{cd}} {X^{b}_{j}} {V^{ib}_{ce}}}{2}",  # noqa: E501
     "wick3": r"{a^\dagger_{i}} {a_{a}} {f^{p}_{q}} {a^\dagger_{p}} {a_{q}} {t1^{bc}_{jk}} {a^\dagger_{b}} {a^\dagger_{c}} {a_{k}} {a_{j}}",  # noqa: E501
 }
 
@@ -777,6 +778,23 @@ for _backend in ("einsum", "libtensor"):
             e = imp(w, "code3", real=True, targets="ijab")
             return generate_code(e, "ijab", backend=backend, bra_ket_sym=0, max_itmd_dim=4)
     _mk(_backend)
+
+
+for _backend in ("einsum", "libtensor"):
+    def _mk(backend):
+        @tmpl(f"code.generate_code(pairs,{backend})", "expr", None, cost=2)
+        def _(w):
+            from adcgen import generate_code
+            e = imp(w, "pairs", real=True, targets="de")
+            return generate_code(e, "de", backend=backend)
+    _mk(_backend)
+
+
+@tmpl("code.optimize_contractions(pairs)", "expr", None)
+def _(w):
+    from adcgen import optimize_contractions
+    e = imp(w, "pairs", real=True, targets="de")
+    return [_scheme_repr(optimize_contractions(t, "de")) for t in e.terms]
 
 
 @tmpl("code.optimize_contractions(code3)", "expr", None)
